@@ -13,6 +13,7 @@ import (
 	"testing"
 
 	"github.com/libp2p/go-libp2p/core/crypto"
+	cryptopb "github.com/libp2p/go-libp2p/core/crypto/pb"
 	"google.golang.org/protobuf/proto"
 	"pgregory.net/rapid"
 
@@ -194,6 +195,24 @@ func c11ForeignKeys() (crypto.PrivKey, crypto.PrivKey, crypto.PrivKey) {
 	return c11RSA, c11Secp, c11ECDSA
 }
 
+// c11LegacyEncoding re-serialises an Ed25519 private key in the older 96-byte form (key + redundant public key)
+func c11LegacyEncoding(blob []byte) []byte {
+	k, err := crypto.UnmarshalPrivateKey(blob)
+	if err != nil {
+		panic(err)
+	}
+	raw, _ := k.Raw()
+	data := append(append([]byte{}, raw...), raw[32:]...)
+	out, err := proto.Marshal(&cryptopb.PrivateKey{Type: cryptopb.KeyType_Ed25519.Enum(), Data: data})
+	if err != nil {
+		panic(err)
+	}
+	if k2, err := crypto.UnmarshalPrivateKey(out); err != nil || !k2.Equals(k) {
+		panic("legacy encoding not accepted by libp2p")
+	}
+	return out
+}
+
 func c11Marshal(k crypto.PrivKey) []byte {
 	b, err := crypto.MarshalPrivateKey(k)
 	if err != nil {
@@ -242,7 +261,7 @@ func TestVerif_C11_ImportGuards(t *testing.T) {
 		}
 		// the blobs
 		rsa, secp, ecdk := c11ForeignKeys()
-		blob := rapid.SampledFrom([]string{"valid", "swapped", "equal", "rsa-account", "secp-proof", "ecdsa-account", "truncated", "random", "empty", "nil-proof", "raw-seed"}).Draw(rt, "blob")
+		blob := rapid.SampledFrom([]string{"valid", "swapped", "equal", "rsa-account", "secp-proof", "ecdsa-account", "truncated", "random", "empty", "nil-proof", "raw-seed", "equal-other-encoding", "equal-other-encoding-swapped", "legacy-encoding"}).Draw(rt, "blob")
 		ia, ib := a, b
 		valid := false
 		switch blob {
@@ -269,6 +288,13 @@ func TestVerif_C11_ImportGuards(t *testing.T) {
 			ib = nil
 		case "raw-seed":
 			ia = a[len(a)-32:]
+		case "equal-other-encoding":
+			ib = c11LegacyEncoding(a) // the same key twice, in two encodings libp2p accepts
+		case "equal-other-encoding-swapped":
+			ia, ib = c11LegacyEncoding(b), b
+		case "legacy-encoding":
+			ia, ib = c11LegacyEncoding(a), c11LegacyEncoding(b) // a legitimate (older) serialisation of the same two keys
+			valid = true
 		}
 		// NB: nothing that touches the account keys may run between `pre` and the import
 		// (an export here would create both keys and hide a weakened guard)
@@ -280,7 +306,7 @@ func TestVerif_C11_ImportGuards(t *testing.T) {
 			rt.Fatalf("%s: %s (%v)", id, msg, desc)
 		}
 		wantOK := valid && !hasAccount
-		if wantOK && err != nil {
+		if wantOK && err != nil && blob != "legacy-encoding" { // accepting an older serialisation is not demanded, only that it is exact if accepted
 			fail("valid-import-refused", "import of a valid export into a store without account refused: %v", err)
 		}
 		if !wantOK && err == nil {
@@ -315,7 +341,7 @@ func TestVerif_C11_ImportGuards(t *testing.T) {
 				}
 			}
 		}
-		if err == nil && blob == "valid" {
+		if err == nil && (blob == "valid" || blob == "legacy-encoding") {
 			id2, _ := c11Identity(dst)
 			if id2 != fmt.Sprintf("%x/%x", a, b) {
 				fail("import-not-exact", "export after import differs from the imported blobs")
